@@ -3,6 +3,8 @@ package codegen
 import (
 	"fmt"
 	"log"
+	"regexp"
+	"strings"
 
 	"github.com/HobbyOSs/gosk/pkg/ocode"
 	"github.com/HobbyOSs/gosk/pkg/variantstack"
@@ -45,6 +47,12 @@ func processOcode(oc ocode.Ocode, ctx *CodeGenContext, machineCode *[]byte) ([]b
 	}
 
 	log.Printf("debug: processOcode: %s, operands: %v\n", oc.Kind, oc.Operands)
+
+	// メモリオペランドのディスプレースメントがラベル ([ label ]) の場合、ModR/M の計算はラベル名を見ないため
+	// アドレス 0 としてエンコードされてしまう。ここでラベルをアドレスに置き換えておく (LGDT は自前で SymTable を引く)
+	if oc.Kind != ocode.OpLGDT {
+		params.Operands = resolveLabelDisplacements(oc.Operands, ctx.SymTable)
+	}
 
 	// Check if the instruction is a no-parameter instruction handled by opcodeMap
 	if _, exists := opcodeMap[oc.Kind]; exists {
@@ -120,4 +128,28 @@ func handleNoParamOpcode(ocode ocode.Ocode) []byte {
 		return GenerateX86NoParam(ocode)
 	}
 	return nil
+}
+
+// labelMemoryOperand は "[ label ]" (サイズ指定付きも可) の形のメモリオペランドにマッチします。
+var labelMemoryOperand = regexp.MustCompile(`^((?:BYTE|WORD|DWORD)\s+)?\[\s*([A-Za-z_.$][A-Za-z0-9_.$]*)\s*\]$`)
+
+// resolveLabelDisplacements は、ラベルだけからなるメモリオペランドをそのラベルのアドレスに置き換えたオペランド列を返します。
+// シンボルテーブルにない名前 (レジスタ名や未定義ラベル) はそのままにします。
+func resolveLabelDisplacements(operands []string, symTable map[string]int32) []string {
+	resolved := operands
+	for i, op := range operands {
+		m := labelMemoryOperand.FindStringSubmatch(strings.TrimSpace(op))
+		if m == nil {
+			continue
+		}
+		addr, ok := symTable[m[2]]
+		if !ok {
+			continue
+		}
+		if &resolved[0] == &operands[0] {
+			resolved = append([]string(nil), operands...)
+		}
+		resolved[i] = fmt.Sprintf("%s[ 0x%x ]", m[1], uint32(addr))
+	}
+	return resolved
 }
